@@ -114,7 +114,9 @@ let () =
              | id :: dialect :: flags :: pattern :: points :: _ ->
                  (match regex_new false (dialect = "xpath") (dec pattern) (dec flags) with
                   | Ok re ->
-                      let pts = List.map (fun h -> int_of_string ("0x" ^ h)) (split_on '.' points) in
+                      let pts = if points = "all"
+                                then List.filter (fun cp -> cp < 0xD800 || cp > 0xDFFF) (List.init 0x110000 (fun i -> i))
+                                else List.map (fun h -> int_of_string ("0x" ^ h)) (split_on '.' points) in
                       let b = Buffer.create 64 in
                       Buffer.add_string b id; Buffer.add_string b "\tok";
                       let run = ref None in
@@ -206,7 +208,9 @@ let () =
              | id :: "clsmem" :: dialect :: flags :: pattern :: points :: _ ->
                  (match spec_compile (dialect = "xpath") (dec flags) (dec pattern) with
                   | Valid (fl, r) ->
-                      let pts = List.map (fun h -> int_of_string ("0x" ^ h)) (split_on '.' points) in
+                      let pts = if points = "all"
+                                then List.filter (fun cp -> cp < 0xD800 || cp > 0xDFFF) (List.init 0x110000 (fun i -> i))
+                                else List.map (fun h -> int_of_string ("0x" ^ h)) (split_on '.' points) in
                       let b = Buffer.create 64 in
                       Buffer.add_string b id; Buffer.add_string b "\tok";
                       let run = ref None in
